@@ -3,16 +3,22 @@ package main
 import (
 	"fmt"
 	"math/rand"
+	"os"
+	"os/exec"
 	"path/filepath"
-	"sort"
+	"regexp"
 	"strings"
+	"time"
 
 	"github.com/onflow/atree"
 
 	"verifharness/hx"
 )
 
-func init() { streams["health"] = healthStream }
+func init() {
+	streams["health"] = healthStream
+	streams["healthcycle-child"] = healthCycleChild
+}
 
 // RefV is a value whose storable is a bare reference to an existing slab (used to fabricate
 // double references and foreign-owner references).
@@ -22,28 +28,65 @@ func (r RefV) Storable(atree.SlabStorage, atree.Address, uint32) (atree.Storable
 	return atree.SlabIDStorable(r.ID), nil
 }
 
+// world kinds
+const (
+	hwArrays  = iota // 1-3 arrays, large values in their own slabs
+	hwMaps           // 1-2 maps with the real digester: large values, oversized keys (stored as references)
+	hwCollide        // maps with digest tables: inline and EXTERNAL collision groups
+	hwNested         // a parent array holding inlined arrays / maps (with large values and external collision groups inside), wrappers around references and around children
+	hwEmpty          // no slab at all
+	hwKinds
+)
+
+var hwNames = [...]string{"arrays", "maps", "collide", "nested", "empty"}
+
 type healthWorld struct {
 	ledger *hx.Ledger
 	ps     *atree.PersistentSlabStorage
-	roots  []atree.SlabID
-	arrays []*atree.Array
+	kind   int
+	roots  []atree.SlabID // the root slabs of the top-level containers, known from construction
 }
 
-// buildWorld deterministically builds a healthy storage: several arrays (some multi-level, some
-// with large values in their own slabs) under one or two owners; optionally committed and
-// reloaded so that every slab is served from the cache.
-func buildWorld(seed int64, committed bool) *healthWorld {
+func hcMust(err error) {
+	if err != nil {
+		panic(err)
+	}
+}
+
+// buildWorld deterministically builds a healthy storage of the given kind; optionally committed
+// and reloaded so that every slab is served from the cache.
+func buildWorld(seed int64, kind int, committed bool) *healthWorld {
 	rng := rand.New(rand.NewSource(seed))
 	atree.VerifSetThreshold(256)
-	w := &healthWorld{ledger: hx.NewLedger()}
+	w := &healthWorld{ledger: hx.NewLedger(), kind: kind}
 	w.ps = hx.NewStorage(w.ledger)
+	switch kind {
+	case hwArrays:
+		buildArrays(rng, w)
+	case hwMaps:
+		buildMaps(rng, w, false)
+	case hwCollide:
+		buildMaps(rng, w, true)
+	case hwNested:
+		buildNested(rng, w)
+	case hwEmpty:
+	}
+	if committed {
+		hcMust(w.ps.FastCommit(2))
+		// reopen and load everything
+		w.ps = hx.NewStorage(w.ledger)
+		hcMust(w.ps.BatchPreload(w.ledger.SortedIDs(), 3))
+	}
+	hx.SortIDs(w.roots)
+	return w
+}
+
+func buildArrays(rng *rand.Rand, w *healthWorld) {
 	nArr := 1 + rng.Intn(3)
 	for k := 0; k < nArr; k++ {
 		addr := hx.MkAddr(uint64(1 + rng.Intn(2)))
 		a, err := atree.NewArray(w.ps, addr, hx.TI(7))
-		if err != nil {
-			panic(err)
-		}
+		hcMust(err)
 		n := rng.Intn(60)
 		if k == 0 {
 			n = 30 + rng.Intn(120)
@@ -53,131 +96,153 @@ func buildWorld(seed int64, committed bool) *healthWorld {
 			if rng.Intn(12) == 0 {
 				size = 130 + uint32(rng.Intn(40)) // externalised
 			}
-			if err := a.Append(hx.TV{Size: size, Pay: uint64(1000*k + i)}); err != nil {
-				panic(err)
-			}
+			hcMust(a.Append(hx.TV{Size: size, Pay: uint64(1000*k + i)}))
 		}
-		w.arrays = append(w.arrays, a)
 		w.roots = append(w.roots, a.SlabID())
 	}
-	if committed {
-		if err := w.ps.FastCommit(2); err != nil {
-			panic(err)
+}
+
+// collideBuilder: digests from a table with tiny alphabets on the first three levels, so that
+// first-level elements are collision groups; groups that outgrow the element limit become
+// external collision-group slabs.
+func collideBuilder(salt uint64, alph [4]uint64) atree.DigesterBuilder {
+	return &hx.TableDigesterBuilder{L: 4, Fn: func(k hx.TV, l uint) uint64 {
+		return mix(k.Pay, uint64(l), salt) % alph[l] * 1000003
+	}}
+}
+
+func buildMaps(rng *rand.Rand, w *healthWorld, collide bool) {
+	_, _, _, _, _, maxKey := atree.VerifThresholds()
+	nMaps := 1 + rng.Intn(2)
+	for k := 0; k < nMaps; k++ {
+		addr := hx.MkAddr(uint64(1 + rng.Intn(2)))
+		var b atree.DigesterBuilder = atree.NewDefaultDigesterBuilder()
+		if collide {
+			b = collideBuilder(uint64(rng.Int63()), [4]uint64{uint64(3 + rng.Intn(6)), 2, 2, 1 << 62})
 		}
-		// reopen and load everything
-		w.ps = hx.NewStorage(w.ledger)
-		if err := w.ps.BatchPreload(w.ledger.SortedIDs(), 3); err != nil {
-			panic(err)
+		m, err := atree.NewMap(w.ps, addr, b, hx.TI(8))
+		hcMust(err)
+		n := rng.Intn(40)
+		if k == 0 {
+			n = 60 + rng.Intn(140)
 		}
+		for i := 0; i < n; i++ {
+			key := hx.TV{Size: uint32(9 + rng.Intn(8)), Pay: uint64(100000*k + i + 1)}
+			if !collide && rng.Intn(15) == 0 {
+				key.Size = maxKey + 1 + uint32(rng.Intn(30)) // stored as a reference to a large-value slab
+			}
+			size := uint32(8 + rng.Intn(40))
+			if rng.Intn(10) == 0 {
+				size = 130 + uint32(rng.Intn(40)) // externalised
+			}
+			_, err := m.Set(hx.CompareKey, hx.HashInput, key, hx.TV{Size: size, Pay: uint64(7000000 + 1000*k + i)})
+			hcMust(err)
+		}
+		w.roots = append(w.roots, m.SlabID())
 	}
-	hx.SortIDs(w.roots)
-	return w
 }
 
-type hslab struct {
-	id   atree.SlabID
-	self atree.SlabID
-	refs []atree.SlabID
+// nestedChild builds a small container (bottom-up: grandchildren first) to be placed inside a
+// parent; it is inlined by the parent when it fits and becomes a referenced standalone tree
+// otherwise.
+func nestedChild(rng *rand.Rand, w *healthWorld, addr atree.Address, depth int, pay *uint64) atree.Value {
+	next := func() uint64 { *pay++; return *pay }
+	plain := func() atree.Value {
+		switch rng.Intn(6) {
+		case 0:
+			return hx.TV{Size: 130 + uint32(rng.Intn(40)), Pay: next()} // reference inside the child
+		case 1:
+			return hx.SomeValue{V: hx.TV{Size: 130 + uint32(rng.Intn(40)), Pay: next()}} // wrapper around a reference
+		}
+		return hx.TV{Size: uint32(3 + rng.Intn(12)), Pay: next()}
+	}
+	elem := func() atree.Value {
+		if depth > 0 && rng.Intn(3) == 0 {
+			c := nestedChild(rng, w, addr, depth-1, pay)
+			if rng.Intn(4) == 0 {
+				c = hx.SomeValue{V: c}
+			}
+			return c
+		}
+		return plain()
+	}
+	switch rng.Intn(3) {
+	case 0:
+		a, err := atree.NewArray(w.ps, addr, hx.TI(uint64(20+depth)))
+		hcMust(err)
+		for i, n := 0, 1+rng.Intn(4); i < n; i++ {
+			hcMust(a.Append(elem()))
+		}
+		return a
+	case 1:
+		m, err := atree.NewMap(w.ps, addr, atree.NewDefaultDigesterBuilder(), hx.TI(uint64(30+depth)))
+		hcMust(err)
+		for i, n := 0, 1+rng.Intn(4); i < n; i++ {
+			_, err := m.Set(hx.CompareKey, hx.HashInput, hx.TV{Size: 9, Pay: next()}, elem())
+			hcMust(err)
+		}
+		return m
+	default:
+		// every key collides on the first level: one first-level element, a collision group that is
+		// spilled into an external collision-group slab once it outgrows the element limit, while the
+		// map's own root slab stays small (and inlined)
+		salt := uint64(rng.Int63())
+		m, err := atree.NewMap(w.ps, addr, collideBuilder(salt, [4]uint64{1, 1 + uint64(rng.Intn(2)), 1 << 62, 1 << 62}), hx.TI(uint64(40+depth)))
+		hcMust(err)
+		for i, n := 0, 2+rng.Intn(9); i < n; i++ {
+			_, err := m.Set(hx.CompareKey, hx.HashInput, hx.TV{Size: 9, Pay: next()}, hx.TV{Size: uint32(10 + rng.Intn(25)), Pay: next()})
+			hcMust(err)
+		}
+		return m
+	}
 }
 
-// liveHeap lists every slab visible through the storage (write set over cache), all loaded.
-func liveHeap(ps *atree.PersistentSlabStorage) []hslab {
-	deltas := atree.VerifDeltas(ps)
-	cache := atree.VerifCache(ps)
-	seen := map[atree.SlabID]bool{}
-	var out []hslab
-	add := func(id atree.SlabID, s atree.Slab) {
-		if seen[id] {
-			return
-		}
-		seen[id] = true
-		if s == nil {
-			return
-		}
-		h := hslab{id: id, self: s.SlabID()}
-		todo := s.ChildStorables()
-		for len(todo) > 0 {
-			var next []atree.Storable
-			for _, c := range todo {
-				if r, ok := c.(atree.SlabIDStorable); ok {
-					h.refs = append(h.refs, atree.SlabID(r))
+func buildNested(rng *rand.Rand, w *healthWorld) {
+	nTop := 1 + rng.Intn(2)
+	pay := uint64(0)
+	for k := 0; k < nTop; k++ {
+		addr := hx.MkAddr(uint64(1 + rng.Intn(2)))
+		n := 8 + rng.Intn(20)
+		if k%2 == 0 {
+			parent, err := atree.NewArray(w.ps, addr, hx.TI(7))
+			hcMust(err)
+			for i := 0; i < n; i++ {
+				var v atree.Value
+				switch rng.Intn(5) {
+				case 0:
+					pay++
+					v = hx.TV{Size: uint32(5 + rng.Intn(40)), Pay: pay}
+				case 1:
+					pay++
+					v = hx.SomeValue{V: hx.SomeValue{V: hx.TV{Size: 130 + uint32(rng.Intn(40)), Pay: pay}}}
+				case 2:
+					v = hx.SomeValue{V: nestedChild(rng, w, addr, 1, &pay)}
+				default:
+					v = nestedChild(rng, w, addr, 2, &pay)
 				}
-				next = append(next, c.ChildStorables()...)
+				hcMust(parent.Append(v))
 			}
-			todo = next
+			w.roots = append(w.roots, parent.SlabID())
+		} else {
+			parent, err := atree.NewMap(w.ps, addr, atree.NewDefaultDigesterBuilder(), hx.TI(8))
+			hcMust(err)
+			for i := 0; i < n; i++ {
+				pay++
+				key := hx.TV{Size: 9, Pay: pay}
+				var v atree.Value = nestedChild(rng, w, addr, 2, &pay)
+				if rng.Intn(4) == 0 {
+					v = hx.SomeValue{V: v}
+				}
+				_, err := parent.Set(hx.CompareKey, hx.HashInput, key, v)
+				hcMust(err)
+			}
+			w.roots = append(w.roots, parent.SlabID())
 		}
-		out = append(out, h)
 	}
-	for id, s := range deltas {
-		add(id, s)
-	}
-	for id, s := range cache {
-		add(id, s)
-	}
-	sort.Slice(out, func(i, j int) bool { return hx.IDLess(out[i].id, out[j].id) })
-	return out
 }
 
-// oracleHealthy is the model-free reading of "healthy": every reference resolves, every slab is
-// referenced at most once, owners agree along references, every slab hangs under a root.
-// It returns the sorted roots when healthy.
-func oracleHealthy(h []hslab) (bool, string, []atree.SlabID) {
-	byID := map[atree.SlabID]hslab{}
-	for _, s := range h {
-		byID[s.id] = s
-	}
-	incoming := map[atree.SlabID]int{}
-	for _, s := range h {
-		for _, r := range s.refs {
-			t, ok := byID[r]
-			if !ok {
-				return false, "dangling reference " + hx.IDStr(r) + " in " + hx.IDStr(s.id), nil
-			}
-			if t.self.Address() != s.self.Address() {
-				return false, "owner mismatch " + hx.IDStr(s.id) + " -> " + hx.IDStr(r), nil
-			}
-			incoming[r]++
-			if incoming[r] > 1 {
-				return false, "double reference to " + hx.IDStr(r), nil
-			}
-		}
-	}
-	var roots []atree.SlabID
-	for _, s := range h {
-		if incoming[s.id] == 0 {
-			roots = append(roots, s.id)
-		}
-	}
-	// reachability from the roots
-	seen := map[atree.SlabID]bool{}
-	var walk func(id atree.SlabID)
-	walk = func(id atree.SlabID) {
-		if seen[id] {
-			return
-		}
-		seen[id] = true
-		for _, r := range byID[id].refs {
-			walk(r)
-		}
-	}
-	for _, r := range roots {
-		walk(r)
-	}
-	if len(seen) != len(h) {
-		return false, "slabs not reachable from any root (cycle)", nil
-	}
-	hx.SortIDs(roots)
-	return true, "", roots
-}
-
-func heapLine(h []hslab) string {
-	parts := make([]string, len(h))
-	for i, s := range h {
-		parts[i] = fmt.Sprintf("%s:%d:%s", hx.IDStr(s.id), s.self.AddressAsUint64(), strings.Join(idStrs(s.refs), ","))
-	}
-	return strings.Join(parts, ";")
-}
-
+// healthErrKind names the check of CheckStorageHealth that fired (the error messages are the only
+// thing that tells the FatalErrors apart).
 func healthErrKind(err error) string {
 	if err == nil {
 		return "ok"
@@ -196,7 +261,7 @@ func healthErrKind(err error) string {
 		return "RootCount"
 	case strings.Contains(m, "duplicate slab"):
 		return "Duplicate"
-	case strings.Contains(m, "not found"):
+	case strings.HasPrefix(hx.ErrKind(err), "SlabNotFound:"):
 		return "SlabNotFound"
 	}
 	return "Other"
@@ -214,46 +279,182 @@ func healthStream(cfg *Config) *hx.Stats {
 		v := hx.Violation{Property: "C20", Stream: "health", Seed: cfg.Seed, Program: prog, What: what, Trace: w.Path, Line: w.Lines, Sig: sig}
 		st.Violations = append(st.Violations, v)
 	}
-	// runs the real check, writes the trace lines, compares with the model-free oracle
-	runCheck := func(prog int, label string, hw *healthWorld, expected int, sig string) {
-		h := liveHeap(hw.ps)
-		w.L("HEAP %s", heapLine(h))
-		w.L("HC expected=%d label=%s", expected, label)
+	// heaps are read with the harness's register walker; a disagreement with the library's
+	// ChildStorables enumeration is a violation of its own
+	diffSeen := map[string]bool{}
+	curProg := 0
+	diff := func(what string) {
+		if !diffSeen[what] {
+			diffSeen[what] = true
+			viol(curProg, "child storable enumeration: "+what, "")
+		}
+	}
+	// runCheck runs the real check on hw and compares it with
+	//   * the construction-time truth (label "healthy": must be accepted with exactly hw.roots),
+	//   * the model-free graph oracle on the independently read heap,
+	//   * want: the check that has to fire ("" = any error),
+	// and writes the heap, the storage state and the outcome for the model.
+	runCheck := func(prog int, label string, hw *healthWorld, expected int, want string, sig string) {
+		curProg = prog
+		h := liveHeap(hw.ps, diff)
+		sd, sc, sb := storageState(hw.ps, hw.ledger, diff)
 		roots, err := atree.CheckStorageHealth(hw.ps, expected)
-		healthy, why, oroots := oracleHealthy(h)
+		var obs string
+		var rs []atree.SlabID
 		if err != nil {
-			w.L("OBS err:%s", healthErrKind(err))
+			obs = "err:" + healthErrKind(err)
 		} else {
-			var rs []atree.SlabID
 			for r := range roots {
 				rs = append(rs, r)
 			}
 			hx.SortIDs(rs)
-			w.L("OBS ok:%s", strings.Join(idStrs(rs), ","))
-			if !healthy {
-				viol(prog, fmt.Sprintf("health check accepted an unhealthy storage (%s): %s", label, why), sig)
-			} else if strings.Join(idStrs(rs), ",") != strings.Join(idStrs(oroots), ",") {
-				viol(prog, fmt.Sprintf("health check returned roots %v, true roots %v (%s)", idStrs(rs), idStrs(oroots), label), sig)
+			obs = "ok:" + strings.Join(idStrs(rs), ",")
+		}
+		// the same outcome is compared with the model of the check on the heap (HC) and with the
+		// model of slab iteration + check on the storage state (HCS)
+		w.L("HEAP %s", heapLine(h))
+		w.L("HC expected=%d label=%s", expected, label)
+		w.L("OBS %s", obs)
+		w.L("STO d=%s c=%s b=%s", heapLine(sd), heapLine(sc), heapLine(sb))
+		w.L("HCS expected=%d label=%s", expected, label)
+		w.L("OBS %s", obs)
+		healthy, why, oroots := oracleHealthy(h)
+		got := strings.Join(idStrs(rs), ",")
+		base := strings.SplitN(label, "@", 2)[0]
+		switch {
+		case strings.HasPrefix(label, "healthy"):
+			// construction-time truth, independent of any walk over the storage
+			wantRoots := strings.Join(idStrs(hw.roots), ",")
+			countOK := expected < 0 || expected == len(hw.roots)
+			if !healthy || strings.Join(idStrs(oroots), ",") != wantRoots {
+				viol(prog, fmt.Sprintf("the storage built by valid requests is not healthy by the graph oracle (%s; roots %v, containers %v)", why, idStrs(oroots), idStrs(hw.roots)), sig)
+			}
+			if countOK && err != nil {
+				viol(prog, fmt.Sprintf("health check rejected a healthy storage (%s, expected=%d): %v", label, expected, err), sig)
+			}
+			if countOK && err == nil && got != wantRoots {
+				viol(prog, fmt.Sprintf("health check returned roots %v, the containers' roots are %v (%s, expected=%d)", idStrs(rs), idStrs(hw.roots), label, expected), sig)
+			}
+			if !countOK && err == nil {
+				viol(prog, fmt.Sprintf("health check accepted %d roots, expected %d (%s)", len(hw.roots), expected, label), sig)
+			}
+		default:
+			if err == nil {
+				if !healthy {
+					viol(prog, fmt.Sprintf("health check accepted an unhealthy storage (%s): %s", label, why), sig)
+				} else if got != strings.Join(idStrs(oroots), ",") {
+					viol(prog, fmt.Sprintf("health check returned roots %v, true roots %v (%s)", idStrs(rs), idStrs(oroots), label), sig)
+				} else if expected >= 0 && len(oroots) != expected {
+					viol(prog, fmt.Sprintf("health check accepted %d roots, expected %d (%s)", len(oroots), expected, label), sig)
+				}
+			} else if healthy && (expected < 0 || len(oroots) == expected) {
+				viol(prog, fmt.Sprintf("health check rejected a healthy storage (%s): %v", label, err), sig)
 			}
 		}
-		if err == nil && healthy && expected >= 0 && len(oroots) != expected {
-			viol(prog, fmt.Sprintf("health check accepted %d roots, expected %d (%s)", len(oroots), expected, label), sig)
-		}
-		if err != nil && healthy && (expected < 0 || len(oroots) == expected) {
-			viol(prog, fmt.Sprintf("health check rejected a healthy storage (%s): %v", label, err), sig)
+		if err != nil {
+			if k := healthErrKind(err); want != "" && want != "ok" && k != want {
+				viol(prog, fmt.Sprintf("health check failed with %s, the check that has to fire is %s (%s): %v", k, want, label, err), sig)
+			}
+			if c := hx.ErrCategory(err); c != "Fatal" {
+				viol(prog, fmt.Sprintf("health check error of category %s, want Fatal (%s): %v", c, label, err), sig)
+			}
 		}
 		st.Ops++
-		st.Hit("check:" + strings.SplitN(label, "@", 2)[0])
+		st.Hit("check:" + base)
+		st.Hit("world:" + hwNames[hw.kind])
 		distinct[label+heapLine(h)] = true
+	}
+	// the slab iterator itself: identifiers yielded (with multiplicity) against the model
+	runIter := func(prog int, label string, hw *healthWorld) {
+		curProg = prog
+		sd, sc, sb := storageState(hw.ps, hw.ledger, diff)
+		w.L("STO d=%s c=%s b=%s", heapLine(sd), heapLine(sc), heapLine(sb))
+		w.L("ITER label=%s", label)
+		it, err := hw.ps.SlabIterator()
+		if err != nil {
+			k := "Other"
+			if strings.HasPrefix(hx.ErrKind(err), "SlabNotFound:") {
+				k = "SlabNotFound"
+			}
+			w.L("OBS err:%s", k)
+		} else {
+			var ids []atree.SlabID
+			for {
+				id, _ := it()
+				if id == atree.SlabIDUndefined {
+					break
+				}
+				ids = append(ids, id)
+			}
+			hx.SortIDs(ids)
+			w.L("OBS ok:%s", strings.Join(idStrs(ids), ","))
+			// model-free: every live loaded slab is yielded exactly once; with everything loaded
+			// nothing else is yielded
+			n := map[atree.SlabID]int{}
+			for _, id := range ids {
+				n[id]++
+			}
+			live := liveHeap(hw.ps, diff)
+			for _, s := range live {
+				if n[s.id] != 1 {
+					viol(prog, fmt.Sprintf("slab iterator yielded the live slab %s %d times (%s)", hx.IDStr(s.id), n[s.id], label), "")
+					break
+				}
+			}
+			if !strings.HasPrefix(label, "lazy") && len(ids) != len(live) {
+				viol(prog, fmt.Sprintf("slab iterator yielded %d slabs, the storage (all loaded) holds %d live slabs (%s)", len(ids), len(live), label), "")
+			}
+		}
+		st.Ops++
+		st.Hit("iter:" + strings.SplitN(label, "@", 2)[0])
+	}
+	runRefs := func(prog int, label string, hw *healthWorld, h []hslab, r atree.SlabID) {
+		curProg = prog
+		refs, broken, err := hw.ps.GetAllChildReferences(r)
+		if err != nil {
+			viol(prog, fmt.Sprintf("GetAllChildReferences(%s) failed (%s): %v", hx.IDStr(r), label, err), "")
+			return
+		}
+		hx.SortIDs(refs)
+		hx.SortIDs(broken)
+		w.L("HEAP %s", heapLine(h))
+		w.L("REFS root=%s label=%s", hx.IDStr(r), label)
+		w.L("OBS ok:%s|%s", strings.Join(idStrs(refs), ","), strings.Join(idStrs(broken), ","))
+		wantRefs, wantBroken := refsAndBroken(h, r)
+		if strings.Join(idStrs(refs), ",") != strings.Join(idStrs(wantRefs), ",") ||
+			strings.Join(idStrs(broken), ",") != strings.Join(idStrs(wantBroken), ",") {
+			viol(prog, fmt.Sprintf("GetAllChildReferences(%s) (%s) = %v / broken %v, want %v / %v",
+				hx.IDStr(r), label, idStrs(refs), idStrs(broken), idStrs(wantRefs), idStrs(wantBroken)), "")
+		}
+		st.Ops++
+		st.Hit("refs:" + strings.SplitN(label, "@", 2)[0])
 	}
 	for p := 0; p < nWorlds; p++ {
 		seed := cfg.Seed*1000 + int64(p)
-		committed := p%2 == 1
-		hw := buildWorld(seed, committed)
+		kind := p % hwKinds
+		committed := (p/hwKinds)%2 == 1
+		build := func() *healthWorld { return buildWorld(seed, kind, committed) }
+		hw := build()
 		st.Programs++
-		runCheck(p, "healthy", hw, len(hw.roots), "")
-		runCheck(p, "healthy-nocount", hw, -1, "")
-		h0 := liveHeap(hw.ps)
+		w.L("CFG world=%d kind=%s committed=%v roots=%s", p, hwNames[kind], committed, strings.Join(idStrs(hw.roots), ","))
+		nr := len(hw.roots)
+		runCheck(p, "healthy", hw, nr, "ok", "")
+		runCheck(p, "healthy-nocount", hw, -1, "ok", "")
+		runCheck(p, "healthy-wrongcount", hw, nr+1, "RootCount", "")
+		if nr > 0 {
+			runCheck(p, "healthy-zerocount", hw, 0, "RootCount", "")
+		}
+		runIter(p, "healthy", hw)
+		h0 := liveHeap(hw.ps, diff)
+		if kind == hwNested || kind == hwCollide || kind == hwMaps {
+			for _, s := range h0 {
+				sl := hcSlab(hw.ps, s.id)
+				st.Hit(fmt.Sprintf("slab:%T", sl))
+				for _, c := range dumpCases(sl) {
+					st.Hit("case:" + c)
+				}
+			}
+		}
 		var nonRoots, all []atree.SlabID
 		isRoot := map[atree.SlabID]bool{}
 		for _, r := range hw.roots {
@@ -277,55 +478,52 @@ func healthStream(cfg *Config) *hx.Stats {
 		}
 		// (a) delete a referenced slab: through the storage (pending deletion) ...
 		for _, id := range pick(nonRoots, 6) {
-			x := buildWorld(seed, committed)
+			x := build()
 			_ = x.ps.Remove(id)
-			runCheck(p, "delete-pending@"+hx.IDStr(id), x, len(x.roots), "delete-referenced:pending-or-cached-nil")
+			runCheck(p, "delete-pending@"+hx.IDStr(id), x, nr, "SlabNotFound", "delete-referenced:pending-or-cached-nil")
+			runCheck(p, "delete-pending-nocount@"+hx.IDStr(id), x, -1, "SlabNotFound", "delete-referenced:pending-or-cached-nil")
+			runIter(p, "delete-pending@"+hx.IDStr(id), x)
 			// ... committed (the deletion is then a nil entry of the read cache)
 			if err := x.ps.FastCommit(1); err == nil {
-				runCheck(p, "delete-committed@"+hx.IDStr(id), x, len(x.roots), "delete-referenced:pending-or-cached-nil")
+				runCheck(p, "delete-committed@"+hx.IDStr(id), x, nr, "SlabNotFound", "delete-referenced:pending-or-cached-nil")
+				runIter(p, "delete-committed@"+hx.IDStr(id), x)
 			}
 			// ... and physically, followed by a reload of everything that is left
 			if committed {
-				y := buildWorld(seed, true)
+				y := build()
 				delete(y.ledger.Seg, id)
 				y.ps = hx.NewStorage(y.ledger)
 				_ = y.ps.BatchPreload(y.ledger.SortedIDs(), 2)
-				runCheck(p, "delete-physical@"+hx.IDStr(id), y, len(y.roots), "delete-referenced:physical")
+				runCheck(p, "delete-physical@"+hx.IDStr(id), y, nr, "SlabNotFound", "delete-referenced:physical")
+				runIter(p, "delete-physical@"+hx.IDStr(id), y)
 			}
 		}
 		// (b) an unreferenced slab beyond the expected root count
 		{
-			x := buildWorld(seed, committed)
+			x := build()
 			if _, err := atree.NewStorableSlab(x.ps, hx.MkAddr(1), hx.TV{Size: 20, Pay: 4242}, 20); err != nil {
 				panic(err)
 			}
-			runCheck(p, "extra-unreferenced", x, len(x.roots), "extra-unreferenced")
+			runCheck(p, "extra-unreferenced", x, nr, "RootCount", "extra-unreferenced")
 		}
 		// (c) one slab referenced from two places
 		for _, id := range pick(nonRoots, 4) {
-			x := buildWorld(seed, committed)
+			x := build()
 			b, err := atree.NewArray(x.ps, id.Address(), hx.TI(9))
-			if err != nil {
-				panic(err)
-			}
-			if err := b.Append(RefV{id}); err != nil {
-				panic(err)
-			}
-			runCheck(p, "double-reference@"+hx.IDStr(id), x, len(x.roots)+1, "double-reference")
+			hcMust(err)
+			hcMust(b.Append(RefV{id}))
+			runCheck(p, "double-reference@"+hx.IDStr(id), x, nr+1, "TwoParents", "double-reference")
+			runCheck(p, "double-reference-nocount@"+hx.IDStr(id), x, -1, "TwoParents", "double-reference")
 		}
 		// (c') both references sit in ONE slab (two elements of the same data slab; one of them
 		//      possibly behind a wrapper): the target is a fresh large-value slab
 		for variant := 0; variant < 3; variant++ {
-			x := buildWorld(seed, committed)
+			x := build()
 			ref, err := atree.NewStorableSlab(x.ps, hx.MkAddr(1), hx.TV{Size: 20, Pay: 777}, 20)
-			if err != nil {
-				panic(err)
-			}
+			hcMust(err)
 			target := atree.SlabID(ref.(atree.SlabIDStorable))
 			b, err := atree.NewArray(x.ps, hx.MkAddr(1), hx.TI(9))
-			if err != nil {
-				panic(err)
-			}
+			hcMust(err)
 			_ = b.Append(hx.TV{Size: 5, Pay: 1})
 			switch variant {
 			case 0:
@@ -339,128 +537,290 @@ func healthStream(cfg *Config) *hx.Stats {
 				_ = b.Append(hx.TV{Size: 7, Pay: 2})
 				_ = b.Append(hx.SomeValue{V: hx.SomeValue{V: RefV{target}}})
 			}
-			runCheck(p, fmt.Sprintf("double-reference-same-slab%d@%s", variant, hx.IDStr(target)), x, len(x.roots)+1, "double-reference")
+			runCheck(p, fmt.Sprintf("double-reference-same-slab%d@%s", variant, hx.IDStr(target)), x, nr+1, "TwoParents", "double-reference")
 		}
-		// (d) a reference to a slab owned by a different address
+		// (d) a reference to a slab owned by a different address (a non-root target is referenced
+		//     twice as well: the two-parents check fires first)
 		for _, id := range pick(all, 4) {
-			x := buildWorld(seed, committed)
+			x := build()
 			other := hx.MkAddr(uint64(3 + rng.Intn(3)))
 			b, err := atree.NewArray(x.ps, other, hx.TI(9))
-			if err != nil {
-				panic(err)
-			}
-			if err := b.Append(RefV{id}); err != nil {
-				panic(err)
-			}
-			exp := len(x.roots) + 1
+			hcMust(err)
+			hcMust(b.Append(RefV{id}))
+			exp, want := nr+1, "TwoParents"
 			if isRoot[id] {
-				exp = len(x.roots)
+				exp, want = nr, "Owner"
 			}
-			runCheck(p, "foreign-owner@"+hx.IDStr(id), x, exp, "foreign-owner")
+			runCheck(p, "foreign-owner@"+hx.IDStr(id), x, exp, want, "foreign-owner")
+			runCheck(p, "foreign-owner-nocount@"+hx.IDStr(id), x, -1, want, "foreign-owner")
 		}
 		// (d') a parent with SEVERAL external children, one of them owned by a different address, at
 		//      every position among its siblings (the owner must be checked on every edge, in whatever
 		//      order the slabs are visited)
 		for pos := 0; pos < 3; pos++ {
-			x := buildWorld(seed, committed)
+			x := build()
 			home := hx.MkAddr(1)
 			other := hx.MkAddr(uint64(3 + rng.Intn(3)))
 			b, err := atree.NewArray(x.ps, home, hx.TI(9))
-			if err != nil {
-				panic(err)
-			}
+			hcMust(err)
 			for j := 0; j < 3; j++ {
 				a := home
 				if j == pos {
 					a = other
 				}
 				ref, err := atree.NewStorableSlab(x.ps, a, hx.TV{Size: 20, Pay: uint64(900 + j)}, 20)
-				if err != nil {
-					panic(err)
-				}
-				if err := b.Append(RefV{atree.SlabID(ref.(atree.SlabIDStorable))}); err != nil {
-					panic(err)
-				}
+				hcMust(err)
+				hcMust(b.Append(RefV{atree.SlabID(ref.(atree.SlabIDStorable))}))
 			}
-			runCheck(p, fmt.Sprintf("foreign-owner-sibling%d", pos), x, len(x.roots)+1, "foreign-owner")
+			runCheck(p, fmt.Sprintf("foreign-owner-sibling%d", pos), x, nr+1, "Owner", "foreign-owner")
+		}
+		// (e) only part of a committed storage is loaded: slab iteration has to fetch the rest from
+		//     the ledger (each slab once); a root that is not loaded is not seen at all
+		if committed && nr > 0 {
+			for variant := 0; variant < 3; variant++ {
+				x := build()
+				x.ps = hx.NewStorage(x.ledger)
+				var load []atree.SlabID
+				label := "lazy-roots"
+				switch variant {
+				case 0: // the roots only
+					load = x.roots
+				case 1: // the roots and a random part of the rest
+					load = append(load, x.roots...)
+					for _, id := range nonRoots {
+						if rng.Intn(3) == 0 {
+							load = append(load, id)
+						}
+					}
+					label = "lazy-some"
+				default: // all but the first root
+					label = "lazy-root-missing"
+					for _, id := range all {
+						if id != x.roots[0] {
+							load = append(load, id)
+						}
+					}
+				}
+				hcMust(x.ps.BatchPreload(load, 2))
+				runIter(p, label, x)
+				curProg = p
+				sd, sc, sb := storageState(x.ps, x.ledger, diff)
+				roots, err := atree.CheckStorageHealth(x.ps, nr)
+				obs := "err:" + healthErrKind(err)
+				if err == nil {
+					var rs []atree.SlabID
+					for r := range roots {
+						rs = append(rs, r)
+					}
+					hx.SortIDs(rs)
+					obs = "ok:" + strings.Join(idStrs(rs), ",")
+					if variant < 2 && obs != "ok:"+strings.Join(idStrs(x.roots), ",") {
+						viol(p, fmt.Sprintf("health check on a partly loaded healthy storage (%s) returned %s, the containers' roots are %v", label, obs, idStrs(x.roots)), "")
+					}
+				} else if variant < 2 {
+					viol(p, fmt.Sprintf("health check rejected a partly loaded healthy storage (%s): %v", label, err), "")
+				}
+				w.L("STO d=%s c=%s b=%s", heapLine(sd), heapLine(sc), heapLine(sb))
+				w.L("HCS expected=%d label=%s", nr, label)
+				w.L("OBS %s", obs)
+				st.Ops++
+				st.Hit("check:" + label)
+			}
+			// an unloaded slab referenced from two loaded slabs is fetched twice
+			if len(nonRoots) > 0 {
+				x := build()
+				id := nonRoots[rng.Intn(len(nonRoots))]
+				b, err := atree.NewArray(x.ps, id.Address(), hx.TI(9))
+				hcMust(err)
+				hcMust(b.Append(RefV{id}))
+				hcMust(x.ps.FastCommit(1))
+				x.ps = hx.NewStorage(x.ledger)
+				var load []atree.SlabID
+				for _, l := range x.ledger.SortedIDs() {
+					if l != id {
+						load = append(load, l)
+					}
+				}
+				hcMust(x.ps.BatchPreload(load, 2))
+				runIter(p, "lazy-double-reference@"+hx.IDStr(id), x)
+				sd, sc, sb := storageState(x.ps, x.ledger, diff)
+				_, err = atree.CheckStorageHealth(x.ps, -1)
+				w.L("STO d=%s c=%s b=%s", heapLine(sd), heapLine(sc), heapLine(sb))
+				w.L("HCS expected=-1 label=lazy-double-reference")
+				w.L("OBS %s", map[bool]string{true: "ok:?", false: "err:" + healthErrKind(err)}[err == nil])
+				if err == nil {
+					viol(p, "health check accepted a slab referenced from two places (target not loaded)", "double-reference")
+				}
+				st.Ops++
+				st.Hit("check:lazy-double-reference")
+			}
 		}
 		// all-child-references query on each root, against the oracle walk
 		for _, r := range hw.roots {
-			refs, broken, err := hw.ps.GetAllChildReferences(r)
-			if err != nil {
-				viol(p, "GetAllChildReferences failed on a healthy storage: "+err.Error(), "")
-				continue
-			}
-			want := reachableRefs(h0, r)
-			hx.SortIDs(refs)
-			if strings.Join(idStrs(refs), ",") != strings.Join(idStrs(want), ",") || len(broken) != 0 {
-				viol(p, fmt.Sprintf("GetAllChildReferences(%s) = %v broken %v, want %v", hx.IDStr(r), idStrs(refs), idStrs(broken), idStrs(want)), "")
-			}
-			w.L("REFS root=%s", hx.IDStr(r))
-			w.L("OBS ok:%s|%s", strings.Join(idStrs(refs), ","), strings.Join(idStrs(broken), ","))
+			runRefs(p, "healthy", hw, h0, r)
 		}
 		// ... and with one referenced slab deleted: it must be reported as broken, exactly
 		for _, id := range pick(nonRoots, 3) {
-			x := buildWorld(seed, committed)
+			x := build()
 			_ = x.ps.Remove(id)
-			hx1 := liveHeap(x.ps)
+			hx1 := liveHeap(x.ps, diff)
 			for _, r := range x.roots {
-				refs, broken, err := x.ps.GetAllChildReferences(r)
-				if err != nil {
-					continue
-				}
-				hx.SortIDs(refs)
-				hx.SortIDs(broken)
-				w.L("HEAP %s", heapLine(hx1))
-				w.L("REFS root=%s", hx.IDStr(r))
-				w.L("OBS ok:%s|%s", strings.Join(idStrs(refs), ","), strings.Join(idStrs(broken), ","))
-				wantRefs, wantBroken := refsAndBroken(hx1, r)
-				if strings.Join(idStrs(refs), ",") != strings.Join(idStrs(wantRefs), ",") ||
-					strings.Join(idStrs(broken), ",") != strings.Join(idStrs(wantBroken), ",") {
-					viol(p, fmt.Sprintf("GetAllChildReferences(%s) after deleting %s = %v / broken %v, want %v / %v",
-						hx.IDStr(r), hx.IDStr(id), idStrs(refs), idStrs(broken), idStrs(wantRefs), idStrs(wantBroken)), "")
-				}
+				runRefs(p, "deleted@"+hx.IDStr(id), x, hx1, r)
 			}
+		}
+		// the empty storage accepts 0 roots only
+		if kind == hwEmpty && len(h0) != 0 {
+			st.HarnessErr = "the empty world is not empty"
+		}
+	}
+	// OBSERVATION (not a violation: cyclic storages are not produced by valid histories and are not
+	// one of the four corruption classes): on a reference cycle below a root the real functions do
+	// not return.  Exercised in a child process under a watchdog.
+	for _, call := range []string{"check", "refs", "iter"} {
+		switch cycleProbe(call) {
+		case "hang":
+			st.Hit("observation:cyclic-" + call + "-does-not-return")
+		case "returned":
+			st.Hit("observation:cyclic-" + call + "-returns")
+		default:
+			st.Hit("observation:cyclic-" + call + "-probe-failed")
+		}
+	}
+	for _, need := range []string{"slab:*atree.MapDataSlab", "slab:*atree.MapMetaDataSlab", "slab:*atree.StorableSlab", "world:nested", "world:collide", "world:empty",
+		"case:wrapped-reference", "case:inlined-child", "case:reference-inside-inlined-child", "case:external-group",
+		"case:external-group-under-inlined-map", "case:collision-group-slab"} {
+		if nWorlds >= 2*hwKinds && st.Dist[need] == 0 {
+			st.HarnessErr = "required case never generated: " + need
 		}
 	}
 	st.Distinct = len(distinct)
 	st.TraceLines = w.Lines
 	if len(st.Samples) == 0 {
-		st.Samples = append(st.Samples, "worlds of 1-3 arrays (T=256, up to ~40 slabs, large values in own slabs), uncommitted and committed+reloaded; every corruption kind at sampled slabs")
+		st.Samples = append(st.Samples, "worlds (T=256): 1-3 arrays | 1-2 maps (real digester; large values, oversized keys) | maps with digest tables (external collision groups) | parents holding inlined arrays/maps with references, external groups and wrappers inside | empty; uncommitted and committed+reloaded; expected = n, n+1, 0, -1; every corruption kind at sampled slabs; partly loaded storages")
 	}
 	atree.VerifSetThreshold(1024)
-	// split known findings off
 	return st
 }
 
-func reachableRefs(h []hslab, root atree.SlabID) []atree.SlabID {
-	r, _ := refsAndBroken(h, root)
-	return r
-}
+var (
+	reWrappedRef  = regexp.MustCompile(`W\(\d+:(W\(\d+:)*R`)
+	reInlinedArr  = regexp.MustCompile(`D\([^)]*,1\)`)
+	reInlinedMap  = regexp.MustCompile(`d\([^)]*,1,[01],[01]\)`)
+	reInlinedWRef = regexp.MustCompile(`[Dd]\([^)]*,1(,[01],[01])?\)[^\]]*\d+:R\d`)
+)
 
-func refsAndBroken(h []hslab, root atree.SlabID) (refs, broken []atree.SlabID) {
-	byID := map[atree.SlabID]hslab{}
-	for _, s := range h {
-		byID[s.id] = s
+// dumpCases names the shapes a slab exhibits (read off the field-by-field dump): what the worlds
+// are required to contain.
+func dumpCases(s atree.Slab) []string {
+	d := atree.VerifDumpSlab(s, hx.Describe)
+	var out []string
+	if reWrappedRef.MatchString(d) {
+		out = append(out, "wrapped-reference")
 	}
-	seen := map[atree.SlabID]bool{}
-	var walk func(id atree.SlabID)
-	walk = func(id atree.SlabID) {
-		for _, r := range byID[id].refs {
-			if seen[r] {
-				continue
-			}
-			seen[r] = true
-			if _, ok := byID[r]; !ok {
-				broken = append(broken, r)
-				continue
-			}
-			refs = append(refs, r)
-			walk(r)
+	inl := reInlinedArr.MatchString(d) || reInlinedMap.MatchString(d)
+	if inl {
+		out = append(out, "inlined-child")
+	}
+	if reInlinedWRef.MatchString(d) {
+		out = append(out, "reference-inside-inlined-child")
+	}
+	if strings.Contains(d, "X(") {
+		out = append(out, "external-group")
+		if inl {
+			out = append(out, "external-group-under-inlined-map")
 		}
 	}
-	walk(root)
-	hx.SortIDs(refs)
-	hx.SortIDs(broken)
-	return
+	if strings.HasPrefix(d, "d(") && strings.Contains(d[:strings.Index(d, ")")+1], ",1)") {
+		out = append(out, "collision-group-slab")
+	}
+	return out
+}
+
+func hcSlab(ps *atree.PersistentSlabStorage, id atree.SlabID) atree.Slab {
+	s, _, _ := ps.Retrieve(id)
+	return s
+}
+
+// buildCycle: arrays A=[ref B, ref L], B=[ref A], L a large-value slab (no slab has two parents).
+func buildCycle() (*atree.PersistentSlabStorage, atree.SlabID) {
+	atree.VerifSetThreshold(256)
+	ps := hx.NewStorage(hx.NewLedger())
+	addr := hx.MkAddr(1)
+	a, err := atree.NewArray(ps, addr, hx.TI(1))
+	hcMust(err)
+	b, err := atree.NewArray(ps, addr, hx.TI(2))
+	hcMust(err)
+	l, err := atree.NewStorableSlab(ps, addr, hx.TV{Size: 20, Pay: 1}, 20)
+	hcMust(err)
+	hcMust(a.Append(RefV{b.SlabID()}))
+	hcMust(a.Append(RefV{atree.SlabID(l.(atree.SlabIDStorable))}))
+	hcMust(b.Append(RefV{a.SlabID()}))
+	return ps, a.SlabID()
+}
+
+// healthCycleChild runs one of the two functions on the cyclic storage and reports if it returns.
+func healthCycleChild(cfg *Config) *hx.Stats {
+	ps, root := buildCycle()
+	switch os.Getenv("VERIF_CYCLE_CALL") {
+	case "check":
+		_, err := atree.CheckStorageHealth(ps, -1)
+		fmt.Printf("RETURNED check err=%v\n", err)
+	case "refs":
+		refs, broken, err := ps.GetAllChildReferences(root)
+		fmt.Printf("RETURNED refs %d %d err=%v\n", len(refs), len(broken), err)
+	case "iter":
+		// the cycle A <-> B sits in the ledger, only a third array R=[ref A] is loaded
+		ledger := hx.NewLedger()
+		ps := hx.NewStorage(ledger)
+		addr := hx.MkAddr(1)
+		a, err := atree.NewArray(ps, addr, hx.TI(1))
+		hcMust(err)
+		b, err := atree.NewArray(ps, addr, hx.TI(2))
+		hcMust(err)
+		r, err := atree.NewArray(ps, addr, hx.TI(3))
+		hcMust(err)
+		hcMust(a.Append(RefV{b.SlabID()}))
+		hcMust(b.Append(RefV{a.SlabID()}))
+		hcMust(r.Append(RefV{a.SlabID()}))
+		hcMust(ps.FastCommit(1))
+		ps = hx.NewStorage(ledger)
+		hcMust(ps.BatchPreload([]atree.SlabID{r.SlabID()}, 1))
+		_, err = ps.SlabIterator()
+		fmt.Printf("RETURNED iter err=%v\n", err)
+	}
+	return hx.NewStats("healthcycle-child", cfg.Seed)
+}
+
+// cycleProbe re-executes the harness binary for one call on the cyclic storage and kills it when
+// it has not returned within the watchdog period.
+func cycleProbe(call string) string {
+	self, err := os.Executable()
+	if err != nil {
+		return "failed"
+	}
+	dir, err := os.MkdirTemp("", "healthcycle")
+	if err != nil {
+		return "failed"
+	}
+	defer os.RemoveAll(dir)
+	cmd := exec.Command(self, "-streams", "healthcycle-child", "-out", dir)
+	cmd.Env = append(os.Environ(), "VERIF_CYCLE_CALL="+call, "GOMEMLIMIT=512MiB")
+	var out strings.Builder
+	cmd.Stdout = &out
+	if err := cmd.Start(); err != nil {
+		return "failed"
+	}
+	done := make(chan error, 1)
+	go func() { done <- cmd.Wait() }()
+	select {
+	case <-done:
+		if strings.Contains(out.String(), "RETURNED "+call) {
+			return "returned"
+		}
+		return "failed"
+	case <-time.After(400 * time.Millisecond):
+		_ = cmd.Process.Kill()
+		<-done
+		return "hang"
+	}
 }
